@@ -56,10 +56,10 @@ def plan(pid, tier):
                 dict(batches=2, n=150, depth=6))
     if pid == "C14":
         return ([dict(shape="d2", width="wide"), dict(shape="d3", width="small")],
-                [dict(shape="d2", width="wide", perbase=0), dict(shape="d3", width="small", perbase=2)],
+                [dict(shape="d2", width="wide", perbase=0), dict(shape="d3", width="small", perbase=4)],
                 dict(batches=6, n=400, depth=6))
     return ([dict(shape="d2", width="wide"), dict(shape="d3", width="small")],
-            [dict(shape="d2", width="wide", perbase=0), dict(shape="d3", width="small", perbase=1)],
+            [dict(shape="d2", width="wide", perbase=0), dict(shape="d3", width="small", perbase=3)],
             dict(batches=6, n=400, depth=6))
 
 
@@ -92,8 +92,10 @@ def check(run, replay=None):
                 raise Infra("%sGen printed %d cases and %d tables" % (MOD[pid], len(cases), len(tables)))
             # one line per wrapped expression: nothing may be lost or garbled on the way
             m = re.search(r"Finished computing initial states: (\d+) distinct", r.out)
-            if not m or len(cases) != r.distinct - int(m.group(1)):
-                raise Infra("%sGen: %d cases parsed, %d distinct states, initial states %s" % (MOD[pid], len(cases), r.distinct, m and m.group(1)))
+            mids = len(r.json_prints("mid"))
+            if not m or len(cases) + mids != r.distinct - int(m.group(1)):
+                raise Infra("%sGen: %d cases + %d intermediate lines parsed, %d distinct states, initial states %s"
+                            % (MOD[pid], len(cases), mids, r.distinct, m and m.group(1)))
             run.add_mc(MOD[pid] + "Gen", r, c)
             replay_cases(run, binp, d, "g%d" % gi, tables, cases, c)
             run.notes["trees_replayed"] = run.notes.get("trees_replayed", 0) + len(cases)
@@ -176,7 +178,9 @@ def judge_traces(run, traces, d, tag):
     pid = run.pid
     judged = []
     for t in traces:
-        if t.get("hang") or t.get("panic"):
+        if t.get("t") == "aborted":          # the harness stopped after a hang: the rest of the batch was not executed
+            run.notes["random_aborted_after_hang"] = True
+        elif t.get("hang") or t.get("panic"):
             kind = "Hang" if t.get("hang") else "Panic"
             run.violation({"kind": kind, "root": t["expr"]["op"]},
                           "%s: %s while draining %s: %s" % (pid, kind.lower(), json.dumps(t["expr"]), t.get("panic") or "no answer"),
